@@ -63,6 +63,9 @@ func hCompName(t types.Type, leaf int) string {
 	if lp := leafPtr(t); leaf < len(lp) && lp[leaf] {
 		compPtr[n] = true
 	}
+	if ls := leafSize(t); leaf < len(ls) && ls[leaf] {
+		compSize[n] = true
+	}
 	return n
 }
 
@@ -70,6 +73,9 @@ func eCompName(t types.Type, leaf int) string {
 	n := fmt.Sprintf("E|%s|%d", typeKey(t), leaf)
 	if lp := leafPtr(t); leaf < len(lp) && lp[leaf] {
 		compPtr[n] = true
+	}
+	if ls := leafSize(t); leaf < len(ls) && ls[leaf] {
+		compSize[n] = true
 	}
 	return n
 }
@@ -625,6 +631,9 @@ func (ex *Exec) execBlocks(fr *Frame, rt *bodyRT, blocks []*ssa.BasicBlock, in m
 func (ex *Exec) unrollCount(fr *Frame, li *loopInfo, nloops int) int {
 	c := ex.contractOfFrame(fr)
 	if c == nil || c.NLoops != nloops {
+		return 0
+	}
+	if fr.top && c.UnrollInlined[li.ord] {
 		return 0
 	}
 	return c.Unroll[li.ord]
